@@ -287,9 +287,11 @@ Definition step (l : label) (st : state) : option state :=
                   Some (set_s_cand CUp (set_s_tm (tm_done (s_tm st)) (set_s_ws true (set_s_disc 1
                          (set_s_pq [] (set_k_sc (k_sc st ++ filter (fun q => negb (is_noop q)) (s_pq st))
                            st1))))))
-              | _ => (* any other packet on a candidate: t.Close() + error.  The repo's client never
-                        sends one before UPGRADE; a peer that does is a fault of the attempt. *)
-                     Some (set_broke (broke st || c_committed st) (set_s_cand CDead (ws_kill st1)))
+              | _ => (* any other packet on a candidate: t.Close() + error (upgrade failed: invalid
+                        packet).  The repo's client never sends one before UPGRADE - it holds its
+                        transport write lock across swap + Discard + UPGRADE, so no Send gets in
+                        between: this branch is unreachable (candidate_gets_only_probe_packets). *)
+                     Some (set_s_cand CDead (ws_kill st1))
               end
           | CUp => Some (match p with
                          | Msg n => set_s_recv (s_recv st ++ [n]) st1
